@@ -86,6 +86,50 @@ CLAIMED = {
         note="Only finite field values are injected; populations start from finite non-zero overlaps (checked); CPMC has no documented per-step window, so only finiteness, sign, cap and dead-stays-dead are demanded there.",
         design_ref="DESIGN.md section 5, C09",
     ),
+    "C04": dict(
+        name="phaseless_step",
+        technique="deterministic simulation in refinement form: seeded operation histories (steps with Gaussian / tail / huge fields, QR, local reconfiguration, scripted quadrature-node batches) through the real propagate, every step compared walker by walker with a Fock-space reference step model that is validated in the same run against expm(-dt(H-E)) by tensor Gauss-Hermite quadrature on a dt ladder",
+        text=(
+            "Seeded exploration, decided as refinement: (history) every step the real propagate takes along generated histories - incl. injected "
+            "field tails and huge components, after QR and local reconfigurations - equals, per walker, the step of an independent NumPy/Fock-space "
+            "model (new walker matrix, new cached overlap, applied weight |I| max(0,cos theta) with the NaN/window rules, shift update), and the "
+            "code's own intermediates (mean-field shifts, constant, half-step one-body propagator) equal the model's; (ladder) the field average "
+            "itself is evaluated on the CODE's outputs - importance function rebuilt from the code's force bias, constants, new walker and overlap, "
+            "tied to the applied weight - equals the model's average to 1e-8 and its residual against expm(-dt(H-E_shift)) shrinks >= 3x per "
+            "halving at the fine end of the ladder whenever the model's does. The model is validated the same way in every run."
+        ),
+        note="Trusts NumPy/SciPy expm and the 150-line Fock engine; real trial coefficients; <= 4 orbitals, <= 3 Cholesky matrices; threshold-adjacent comparisons skipped (1e-7 guard band) and counted.",
+        design_ref="DESIGN.md section 5, C04",
+    ),
+    "C05": dict(
+        name="free_step",
+        technique="deterministic simulation in refinement form: histories of 1-20 real propagate_free steps (with field faults), sampler.propagate_free and driver.fp_afqmc on a simulated communicator replayed through an un-normalised Fock-space model under the same jax.random stream; quadrature average of the code's (norm x walker) on a dt ladder",
+        text=(
+            "Seeded exploration: after every real free-projection step (public step, sampler trajectory, pickled driver trajectories of every simulated "
+            "rank) accumulated norm x orthonormal walker equals the model's un-normalised product of propagators as Fock vectors, stored overlap = "
+            "overlap of that state, normed overlap = overlap of the orthonormal walker, columns orthonormal, local energy and force bias unchanged "
+            "by the in-step QR; block energy/weight recomputed from the returned trajectory; the Gauss-Hermite average of the code's norm x walker "
+            "equals the model's average (1e-8) and converges to expm(-dt(H-ene0)) at >= 3x per halving when the model does; the Taylor remainder "
+            "bound is asserted on the model's truncated exponential."
+        ),
+        note="Tolerance follows the conditioning of the un-normalised matrix after an injected huge field (cond > 1e5: walker no longer refined, counted); unrestricted propagator only (free projection is not implemented for the restricted one).",
+        design_ref="DESIGN.md section 5, C05",
+    ),
+    "C10": dict(
+        name="cpmc_step",
+        technique="deterministic simulation with the auxiliary-field choices under simulator control: uniform numbers scripted (random, forcing each of the 2^n configurations, or placed beside a branch probability) through the public gaussian_rns argument; fast and slow propagators in lock-step with a Fock-space CPMC model; exhaustive configuration sum through the real step; cache-coherence monitor",
+        text=(
+            "Seeded exploration with scripted field choices: (walk) propagator_cpmc and propagator_cpmc_slow driven by the same numbers in lock-step "
+            "with a reference CPMC model whose one-body factor is exp(-dt K/2) of the lattice hopping matrix itself - walkers, weights, overlaps per "
+            "step and walker, cached Green's functions/overlaps equal from-scratch values, uniform numbers 1e-6 beside the predicted branch probability; "
+            "(exhaustive) all 2^n configurations forced through the real step: sum_x P(x) w'(x) |phi'(x)>/ov'(x) equals "
+            "e^{dt E} e^{-dt K/2} prod_i e^{-dt U n_up n_dn} e^{-dt K/2}|phi>/ov to 1e-9 whenever no constraint fires (the model is validated the same "
+            "way first); (pairs) every ordered pair of spin-orbitals x random update constants, fast ratio/update vs from scratch, UHF and GHF; "
+            "(nn) neighbour-interaction propagators fast vs slow under one key."
+        ),
+        note="Branch probabilities inside the exhaustive sum come from the model (the code does not expose them) and are tied to the code by the near-branch walk runs; lattices <= 4 sites; real walkers/trials.",
+        design_ref="DESIGN.md section 5, C10",
+    ),
 }
 
 NOT_APPLICABLE = {
@@ -105,7 +149,7 @@ NOT_APPLICABLE = {
 # properties planned as simulation targets whose check is not built yet
 PENDING = {
     k: "planned simulation target (DESIGN.md section 5); its check is not built yet, so nothing is claimed for it in this commit"
-    for k in ["C04", "C05", "C10", "C11"]
+    for k in ["C11"]
 }
 
 
